@@ -338,6 +338,73 @@ Proof.
   - destruct (c07_fold_max_ge (map eb_width bs) 0%nat) as [_ Hm]. rewrite Forall_map in Hm. exact Hm.
 Qed.
 
+(* the blocks made explicit, for ANY number of blocks: block k holds exactly the faces with the k-th
+   smallest occurring corner count, in their original order, shifted to 1-based numbering; the reader
+   returns the faces block after block *)
+Definition c07_size_groups (nmax : nat) (t : table) : list (list row) :=
+  filter c07_nonemptyb (map (c07_bucket (map corners t)) (seq 1 nmax)).
+
+Theorem c07_exodus_blocks_explicit vr nmax t :
+  vr_exo_fill vr = FILL -> vr_exo_accumulate vr = true -> vr_exo_read_all vr = true ->
+  std_table nmax t -> Forall (fun r => c07_exo_elem_ok (length (corners r)) = true) t ->
+  exists bs, c07_exo_connect vr nmax t = Some bs /\
+    map eb_connect bs = map (map (map (Z.add 1))) (c07_size_groups nmax t) /\
+    map corners (c07_read_exodus_conn vr bs) = concat (c07_size_groups nmax t).
+Proof.
+  intros Hfill Hacc Hall Hstd Hel.
+  assert (H1 : Forall (fun r => (1 <= length (corners r))%nat) t).
+  { eapply Forall_impl; [|exact Hel]. simpl. intros r Hr. unfold c07_exo_elem_ok in Hr. lia. }
+  set (L := map corners t).
+  assert (Hcls : forall r, In r t -> c07_exo_classify FILL nmax r = ((length (corners r) - 1)%nat, corners r)
+                                     /\ Forall (fun x => 0 <= x) (corners r) /\ (length (corners r) <= nmax)%nat).
+  { intros r Hr. unfold std_table in Hstd. rewrite Forall_forall in Hstd, H1.
+    destruct (Hstd r Hr) as [Hl Hs]. destruct (c07_classify_std nmax r Hs Hl (H1 r Hr)) as [Ha Hb].
+    repeat split; [exact Ha|exact Hb|]. unfold corners. rewrite firstn_length. lia. }
+  assert (HL : Forall (fun x => (1 <= length x <= nmax)%nat) L).
+  { apply Forall_forall. intros x Hx. unfold L in Hx. apply in_map_iff in Hx. destruct Hx as (r & <- & Hr).
+    rewrite Forall_forall in H1. specialize (H1 r Hr). destruct (Hcls r Hr) as (_ & _ & Hle). lia. }
+  set (groups := map (c07_bucket L) (seq 1 nmax)).
+  unfold c07_exo_connect. rewrite Hfill, Hacc.
+  rewrite (c07_counts_buckets nmax t Hstd H1). fold L.
+  assert (Hmap : map (fun r => snd (c07_exo_classify FILL nmax r)) t = L).
+  { unfold L. apply map_ext_in. intros r Hr. destruct (Hcls r Hr) as (Ha & _). rewrite Ha. reflexivity. }
+  rewrite Hmap. rewrite (c07_sort_len_buckets nmax L HL).
+  replace (map (fun k => length (c07_bucket L k)) (seq 1 nmax)) with (map (@length row) groups)
+    by (unfold groups; rewrite map_map; reflexivity).
+  rewrite flat_map_concat_map. fold groups.
+  rewrite c07_filter_nonzero_groups. rewrite <- (c07_concat_nonempty groups).
+  set (G := filter c07_nonemptyb groups).
+  assert (HG : Forall c07_group_ok G).
+  { apply Forall_forall. intros g Hg. unfold G in Hg. apply filter_In in Hg. destruct Hg as [Hg Hne].
+    unfold groups in Hg. apply in_map_iff in Hg. destruct Hg as (k & <- & Hk).
+    split; [intros E; rewrite E in Hne; discriminate|].
+    exists k. split; [|apply c07_bucket_len].
+    (* some face has k corners, and every face size is an Exodus element type *)
+    destruct (c07_bucket L k) as [|x b] eqn:Eb; [discriminate|].
+    assert (Hx : In x (c07_bucket L k)) by (rewrite Eb; left; reflexivity).
+    unfold c07_bucket in Hx. apply filter_In in Hx. destruct Hx as [Hx Hlen].
+    unfold L in Hx. apply in_map_iff in Hx. destruct Hx as (r & <- & Hr).
+    rewrite Forall_forall in Hel. specialize (Hel r Hr). replace k with (length (corners r)) by lia. exact Hel. }
+  destruct (c07_blocks_groups G [] HG) as (bs & Hbs & Hconn & Hwid).
+  cbn [length app] in Hbs. rewrite Hbs. exists bs. split; [reflexivity|].
+  split; [exact Hconn|].
+  unfold c07_read_exodus_conn. rewrite Hall.
+  assert (HnnG : Forall (Forall (fun r => Forall (fun x => 0 <= x) r)) G).
+  { apply Forall_forall. intros g Hg. apply Forall_forall. intros x Hx.
+    unfold G in Hg. apply filter_In in Hg. destruct Hg as [Hg _]. unfold groups in Hg.
+    apply in_map_iff in Hg. destruct Hg as (k & <- & _). unfold c07_bucket in Hx. apply filter_In in Hx.
+    destruct Hx as [Hx _]. unfold L in Hx. apply in_map_iff in Hx. destruct Hx as (r & <- & Hr).
+    apply (Hcls r Hr). }
+  rewrite (c07_read_all_corners bs G _ Hconn Hwid); [| |exact HnnG].
+  - reflexivity.
+  - destruct (c07_fold_max_ge (map eb_width bs) 0%nat) as [_ Hm]. rewrite Forall_map in Hm. exact Hm.
+Qed.
+
+Example c07_exodus_blocks_explicit_nonvacuous :
+  c07_size_groups 5 [[0; 1; 2; FILL; FILL]; [2; 3; 4; 5; 6]; [2; 1; 7; FILL; FILL]; [1; 0; 8; 9; FILL]]
+  = [[[0; 1; 2]; [2; 1; 7]]; [[1; 0; 8; 9]]; [[2; 3; 4; 5; 6]]].
+Proof. vm_compute. reflexivity. Qed.
+
 Example c07_exodus_repaired_nonvacuous :
   exists bs, c07_exo_connect c07_repaired 5 [[0; 1; 2; FILL; FILL]; [2; 3; 4; 5; 6]; [2; 1; 7; FILL; FILL]; [1; 0; 8; 9; FILL]] = Some bs
     /\ map corners (c07_read_exodus_conn c07_repaired bs) = [[0; 1; 2]; [2; 1; 7]; [1; 0; 8; 9]; [2; 3; 4; 5; 6]].
